@@ -227,3 +227,203 @@ def rule_mirror_blocks(ctx):
                 r.ok(q, sample={"function": q, "own updates": len(own), "mirrored on bra": len(mirrored), "forwards bra": len(forwards)})
     r.floor(n, 8, "functions handling a bra parameter")
     return r
+
+
+# ---------------------------------------------------------------------------
+# sweep memory: the variable that licenses skipping per-sweep set-up work
+# ---------------------------------------------------------------------------
+
+def _own_walk(node):
+    """walk without entering nested function definitions."""
+    todo = [node]
+    while todo:
+        n = todo.pop()
+        yield n
+        for c in ast.iter_child_nodes(n):
+            if not isinstance(c, (ast.FunctionDef, ast.AsyncFunctionDef, ast.Lambda)):
+                todo.append(c)
+
+
+_UNKNOWN = object()
+
+
+def _mini_eval(e, env):
+    """evaluate a comparison/boolean expression over string/int constants; _UNKNOWN if out of fragment."""
+    if isinstance(e, ast.Constant):
+        return e.value
+    k = _mem_key(e)
+    if k is not None:
+        return env.get(k, _UNKNOWN)
+    if isinstance(e, (ast.Set, ast.Tuple, ast.List)):
+        vs = [_mini_eval(x, env) for x in e.elts]
+        return _UNKNOWN if any(v is _UNKNOWN for v in vs) else set(vs)
+    if isinstance(e, ast.UnaryOp) and isinstance(e.op, ast.Not):
+        v = _mini_eval(e.operand, env)
+        return _UNKNOWN if v is _UNKNOWN else (not v)
+    if isinstance(e, ast.BoolOp):
+        vs = [_mini_eval(x, env) for x in e.values]
+        if any(v is _UNKNOWN for v in vs):
+            return _UNKNOWN
+        return all(vs) if isinstance(e.op, ast.And) else any(vs)
+    if isinstance(e, ast.BinOp) and isinstance(e.op, ast.Add):
+        a, b = _mini_eval(e.left, env), _mini_eval(e.right, env)
+        if a is _UNKNOWN or b is _UNKNOWN or type(a) is not type(b):
+            return _UNKNOWN
+        return a + b
+    if isinstance(e, ast.Compare) and len(e.ops) == 1:
+        a, b = _mini_eval(e.left, env), _mini_eval(e.comparators[0], env)
+        if a is _UNKNOWN or b is _UNKNOWN:
+            return _UNKNOWN
+        op = e.ops[0]
+        try:
+            if isinstance(op, ast.Eq):
+                return a == b
+            if isinstance(op, ast.NotEq):
+                return a != b
+            if isinstance(op, ast.In):
+                return a in b
+            if isinstance(op, ast.NotIn):
+                return a not in b
+        except TypeError:
+            return _UNKNOWN
+    return _UNKNOWN
+
+
+def _mem_key(n):
+    if isinstance(n, ast.Name):
+        return n.id
+    if isinstance(n, ast.Attribute) and isinstance(n.value, ast.Name) and n.value.id == "self":
+        return "self." + n.attr
+    return None
+
+
+def rule_sweep_memory(ctx, sites, rule="sweep-memory"):
+    r = RuleResult(
+        rule,
+        "a sweep driver that skips per-sweep set-up (re-canonization / environment rebuild) because of what the previous "
+        "sweep did: the variable remembering the previous sweep is initialised to a constant before the loop, is set to the "
+        "current direction only after the sweep call, and — if it outlives the call (an attribute) — is updated on every "
+        "path that leaves the loop after a sweep, so the skip is never licensed by a sweep that is not the most recent one",
+    )
+    n_mem = 0
+    for modname, qual, callees, skip_kw in sites:
+        f = ctx.prog.func(modname, qual)
+        if f is None:
+            raise AnalysisError(f"{rule}: {modname}.{qual} not found")
+        where0 = f"{f.module.relpath}:{f.lineno}"
+        loops = [n for n in _own_walk(f.node) if isinstance(n, (ast.For, ast.While))]
+        hit = None
+        for lp in loops:
+            calls = [c for c in _own_walk(lp) if isinstance(c, ast.Call) and (getattr(c.func, "attr", None) or getattr(c.func, "id", None)) in callees]
+            if calls:
+                hit = (lp, calls)
+        if hit is None:
+            raise AnalysisError(f"{rule}: no sweep call ({callees}) inside a loop of {qual}")
+        lp, calls = hit
+        # the skip expression
+        def find_skip(call):
+            for kw in call.keywords:
+                if kw.arg == skip_kw:
+                    return kw.value
+                if kw.arg is None and isinstance(kw.value, ast.Name):
+                    # **opts with opts = {"canonize": canonize, ...}
+                    for a in _own_walk(f.node):
+                        if isinstance(a, ast.Assign) and any(isinstance(t, ast.Name) and t.id == kw.value.id for t in a.targets) and isinstance(a.value, ast.Dict):
+                            for k, v in zip(a.value.keys, a.value.values):
+                                if isinstance(k, ast.Constant) and k.value == skip_kw:
+                                    return v
+            return None
+        E = None
+        for c in calls:
+            E = find_skip(c) or E
+        if E is None:
+            raise AnalysisError(f"{rule}: `{skip_kw}` is not passed to the sweep call of {qual}")
+        hops = 0
+        while isinstance(E, ast.Name) and hops < 4:
+            defs = [a for a in _own_walk(lp) if isinstance(a, ast.Assign) and any(isinstance(t, ast.Name) and t.id == E.id for t in a.targets)]
+            if not defs:
+                break
+            E = defs[-1].value
+            hops += 1
+        construct = qual
+        if isinstance(E, ast.Constant):
+            r.ok(construct, sample={"site": qual, "skip": f"{skip_kw}={E.value!r} (never skipped on memory)"})
+            continue
+        # statement (top level of the loop body, possibly nested in with/if) that holds the sweep
+        first_sweep_line = min(c.lineno for c in calls)
+        last_sweep_line = max(c.end_lineno for c in calls)
+        loop_targets = {n.id for n in ast.walk(lp.target) if isinstance(n, ast.Name)} if isinstance(lp, ast.For) else set()
+        cands = {}
+        for n in ast.walk(E):
+            k = _mem_key(n)
+            if k and isinstance(getattr(n, "ctx", None), ast.Load) and k not in loop_targets and k != "self":
+                cands[k] = n
+        mems = []
+        for k, node in cands.items():
+            stores_in = [a for a in _own_walk(lp) if isinstance(a, ast.Assign) and any(_mem_key(t) == k for t in a.targets)]
+            stores_out = [a for a in _own_walk(f.node) if isinstance(a, ast.Assign) and any(_mem_key(t) == k for t in a.targets) and not (lp.lineno <= a.lineno <= lp.end_lineno)]
+            if k.startswith("self."):
+                mems.append((k, stores_in, stores_out, True))
+            elif stores_in and all(a.lineno > last_sweep_line for a in stores_in):
+                mems.append((k, stores_in, stores_out, False))
+            elif stores_in and stores_out:
+                mems.append((k, stores_in, stores_out, False))
+            elif stores_out and not stores_in and all(isinstance(a.value, ast.Constant) and a.lineno < lp.lineno for a in stores_out):
+                mems.append((k, stores_in, stores_out, False))  # a memory that is never updated
+        if not mems:
+            raise AnalysisError(f"{rule}: the skip expression `{src_of(E)}` of {qual} has no recognisable memory variable")
+        for k, stores_in, stores_out, persistent in mems:
+            n_mem += 1
+            problems = []
+            where = where0
+            if not stores_in:
+                # a memory that never changes is harmless only if its initial value cannot license the skip
+                inits = [a.value.value for a in stores_out if isinstance(a.value, ast.Constant)]
+                others = [x for x in cands if x != k]
+                verdicts = []
+                for init in inits or [None]:
+                    for d in ("L", "R"):
+                        env = {k: init, **{o: d for o in others}, **{t: 1 for t in loop_targets}}
+                        verdicts.append(_mini_eval(E, env))
+                if any(v is _UNKNOWN for v in verdicts):
+                    r.skip(f"{construct}[{k}]", f"`{k}` is never updated and `{src_of(E)}` could not be evaluated")
+                    continue
+                if any(not v for v in verdicts):
+                    problems.append(("no-update", f"`{k}` is never updated in the sweep loop, and with its initial value `{skip_kw}` is skipped on later sweeps"))
+            for a in stores_in:
+                where = f"{f.module.relpath}:{a.lineno}"
+                if a.lineno < first_sweep_line:
+                    problems.append(("early-update", f"`{k}` is set before the sweep it is meant to remember has run"))
+                if not (isinstance(a.value, ast.Name) and a.value.id in {x for x in cands if x != k}):
+                    problems.append(("update-source", f"`{k}` is set to `{src_of(a.value)}`, not to the direction the skip test compares it with"))
+            if not persistent:
+                for a in stores_out:
+                    if a.lineno > lp.lineno:
+                        continue
+                    if not isinstance(a.value, ast.Constant):
+                        problems.append(("init", f"`{k}` is initialised from `{src_of(a.value)}`, which can carry a direction from outside this call"))
+                if not any(a.lineno < lp.lineno for a in stores_out):
+                    problems.append(("init", f"`{k}` is not initialised before the sweep loop"))
+            else:
+                # persistent memory: no exit from the loop between the sweep and the update
+                upd = min((a.lineno for a in stores_in if a.lineno > last_sweep_line), default=None)
+                for x in _own_walk(lp):
+                    if isinstance(x, (ast.Break, ast.Return)) and x.lineno > last_sweep_line and (upd is None or x.lineno < upd):
+                        # a break inside a nested loop does not leave this loop
+                        inner = [l2 for l2 in _own_walk(lp) if isinstance(l2, (ast.For, ast.While)) and l2 is not lp and l2.lineno <= x.lineno <= l2.end_lineno]
+                        if isinstance(x, ast.Break) and inner:
+                            continue
+                        problems.append((
+                            "stale-on-exit",
+                            f"`{k}` outlives the call, but the loop can be left at line {x.lineno} after a sweep and before `{k}` is updated: "
+                            f"the next call skips `{skip_kw}` on the strength of a sweep that was not the last one",
+                        ))
+                        where = f"{f.module.relpath}:{x.lineno}"
+                        break
+            if problems:
+                for op, what in problems:
+                    r.bad(Finding(rule, construct, what, where=where, operand=f"{k}:{op}"))
+            else:
+                r.ok(f"{construct}[{k}]", sample={"site": qual, "memory": k, "skip": f"{skip_kw} = {src_of(E)[:80]}", "scope": "attribute" if persistent else "local"})
+    r.floor(n_mem, len(sites), "sweep-memory variables")
+    return r
